@@ -30,6 +30,19 @@ type session struct {
 	tr  *vh.Trace
 	r   *rand.Rand
 	agg map[string]*[8]int
+	files  int
+	events int
+}
+
+// rotate starts a new trace file when the current one is large (TLC loads a whole file into memory).
+func (s *session) rotate() {
+	if s.tr.N < 1_200_000 {
+		return
+	}
+	s.events += s.tr.N
+	s.tr.Close()
+	s.files++
+	s.tr = vh.NewTrace(fmt.Sprintf("trace-%03d.ndjson", s.files))
 }
 
 func (s *session) note(class string, o runOut) {
@@ -53,6 +66,7 @@ func (s *session) note(class string, o runOut) {
 // both runs the script under a generous limit and then under a limit placed on / just below / inside
 // the gas it really needs.
 func (s *session) both(class, src string, script []byte, limit int64, base int64, marks []mark, note string) runOut {
+	s.rotate()
 	o := execute(s.res, s.tr, runSpec{Src: src, Script: script, Limit: limit, Base: base, Marks: marks, Note: note})
 	s.note(class, o)
 	if o.Panicked {
@@ -90,8 +104,7 @@ func TestDriver(t *testing.T) {
 		t.Fatal("cannot observe the try depth: vm.Context has no tryStack.elems field any more")
 	}
 	res := vh.NewResult()
-	tr := vh.NewTrace("trace.ndjson")
-	s := &session{res: res, tr: tr, r: vh.Rand(12), agg: map[string]*[8]int{}}
+	s := &session{res: res, tr: vh.NewTrace("trace-000.ndjson"), r: vh.Rand(12), agg: map[string]*[8]int{}}
 	bases := []int64{300000, 299999, 123457}
 
 	// (a) behaviours of the model
@@ -174,7 +187,9 @@ func TestDriver(t *testing.T) {
 		}
 	}
 
-	tr.Close()
+	s.tr.Close()
+	s.events += s.tr.N
+	res.Inc("trace_files", s.files+1)
 	classes := []string{}
 	for c := range s.agg {
 		classes = append(classes, c)
@@ -187,7 +202,7 @@ func TestDriver(t *testing.T) {
 			"max_tdepth": a[5], "max_intbits": a[6], "max_itemsize": a[7]}
 	}
 	res.Stats["per_class"] = per
-	res.Inc("trace_events", tr.N)
+	res.Inc("trace_events", s.events)
 	sort.Strings(res.Distinct)
 	if err := res.Write(); err != nil {
 		t.Fatal(err)
